@@ -828,6 +828,12 @@ func (x *VC) evCall(e *SExpr, env *SEnv) *Val {
 			_, isVar := env.vars[b.Name]
 			_, isB := env.bound[b.Name]
 			if !isVar && !isB && b.Name != "result" {
+				_, isPred := x.eng.db.Preds[fe.Name]
+				_, isFn := x.eng.db.Funcs[fe.Name]
+				if isPred || isFn {
+					ne := &SExpr{Op: "call", Args: append([]*SExpr{{Op: "id", Name: fe.Name}}, e.Args[1:]...)}
+					return x.evCall(ne, env)
+				}
 				for _, sp := range x.eng.prog.AllPackages() {
 					if sp.Pkg.Name() == b.Name {
 						if f := sp.Func(fe.Name); f != nil {
